@@ -54,6 +54,33 @@ void judge_pair(vh::Ctx& c, const Pair& p, bool derived, Rng* r) {
       if (T3[k] != AC[k] || T4[k] != AC[k]) { c.violation(vh::fmt("C02:anticommutator:d%d:stored-into-an-operand-differs", d), vh::fmt("component %d: into first operand %.17g, into second %.17g, fresh %.17g; ", k, T3[k], T4[k], AC[k]) + ctx()); break; }
     }
   }
+  {  // the result stored into targets of every kind (empty, another dimension, same dimension with stale contents), with and
+     // without the no-alias guarantee, from operands on user storage and from operands that are unevaluated expressions
+    using squids::detail::guarantee; using squids::detail::NoAlias;
+    int d2 = d == 6 ? 3 : d + 1;
+    auto same = [&](const char* what, const SU_vector& got, const SU_vector& want) {
+      c.eval();
+      if (!same_bits(got, want)) c.violation(vh::fmt("C02:%s:d%d:differs-from-the-fresh-result", what, d), ctx());
+    };
+    try {
+      { SU_vector T; T = squids::iCommutator(A, B); same("commutator:into-empty-target", T, C); }
+      { SU_vector T(d2); T = squids::iCommutator(A, B); same("commutator:into-target-of-another-dimension", T, C); }
+      { SU_vector T = make(p.b); T = squids::ACommutator(A, B); same("anticommutator:into-used-target", T, AC); }
+      { SU_vector T; T = guarantee<NoAlias>(squids::iCommutator(A, B)); same("commutator:no-alias-guarantee:into-empty-target", T, C); }
+      { SU_vector T(d2); T = guarantee<NoAlias>(squids::iCommutator(A, B)); same("commutator:no-alias-guarantee:into-target-of-another-dimension", T, C); }
+      { SU_vector T(d2); T = guarantee<NoAlias>(squids::ACommutator(A, B)); same("anticommutator:no-alias-guarantee:into-target-of-another-dimension", T, AC); }
+      { SU_vector T = make(p.b); T = guarantee<NoAlias>(squids::ACommutator(A, B)); same("anticommutator:no-alias-guarantee:into-used-target", T, AC); }
+      { ExtVec EA(p.a, d), EB(p.b, d); same("commutator:operands-on-user-storage", squids::iCommutator(EA.v, EB.v), C); same("anticommutator:operands-on-user-storage", squids::ACommutator(EA.v, B), AC);
+        double t1 = EA.v * EB.v, t0 = A * B; c.eval(); if (t1 != t0) c.violation(vh::fmt("C02:trace:d%d:differs-for-operands-on-user-storage", d), ctx());
+        ExtVec ET(p.b, d); ET.v = squids::iCommutator(A, B); same("commutator:into-target-on-user-storage", ET.v, C); if (!ET.bound()) c.violation("C02:target-on-user-storage-rebound", ctx());
+        if (EA.image() != p.a || EB.image() != p.b) c.violation("C02:operand-modified", ctx() + " [user storage]"); }
+      { SU_vector Z(d);  // zero vector: A+Z and B-Z are A and B again, as unevaluated expressions
+        same("commutator:expression-operands", squids::iCommutator(A + Z, B - Z), C); same("anticommutator:expression-operands", squids::ACommutator(A + Z, B), AC);
+        double t2 = (A + Z) * (B - Z), t3 = (A + Z) * B, t0 = A * B; c.eval(2);
+        if (t2 != t0 || t3 != t0) c.violation(vh::fmt("C02:trace:d%d:differs-for-expression-operands", d), ctx() + vh::fmt(" %.17g %.17g vs %.17g", t2, t3, t0)); }
+      c.count("target_and_operand_kinds");
+    } catch (std::exception& e) { c.violation(vh::fmt("C02:d%d:exception-for-a-legitimate-statement", d), ctx() + ": " + e.what()); }
+  }
   {  // both operands the same object: [A,A]=0, {A,A}=2A^2, A*A=Tr(A^2)
     SU_vector CS = squids::iCommutator(A, A), AS = squids::ACommutator(A, A);
     c.eval(3);
